@@ -282,6 +282,38 @@ def run_case(R, level, op, fault, k, delta, step_seed, prime, err=None, base=1_7
         R.mon["perturbed_refused"] += 1
         if err:
             R.mon["perturbed_error_response_refused"] += 1
+        mism = [b for a, b in pairs if a != b]
+        if not err and op in ("get", "getnext", "multiget") and mism and 0 < mism[0] < 2**31:
+            # the path after the refusal: LATER the same client sends a request whose id
+            # happens to be the one the refused response carried (ids are clock values);
+            # by then the device holds other values.  The caller gets the answer to THAT
+            # request, not the response refused earlier.
+            newdb = dict(DB)
+            for kk in KEYS[:4]:
+                newdb[kk] = ("int", 4000 + KEYS.index(kk))
+            env.CLOCK.freeze(float(mism[0]))
+            try:
+                w.agent.pdu_hook = None
+                w.agent.set_db(newdb)
+                w.seam.reset(budget=60)
+                w.agent.requests.clear()
+                try:
+                    kind2, val2, _ = budget.run_budgeted(lambda: call(w, op), 300000, light=True)
+                except rig.BudgetExceeded:
+                    kind2, val2 = "exc", "request budget exceeded"
+                sent_ids = [a for a, _ in id_pairs(w)]
+                expect = norm(op, call(World("v1" if level == "v1" else "v2c", newdb), op))
+            finally:
+                env.CLOCK.freeze(1_700_000_000.0)
+            if kind2 == "over":
+                return
+            if mism[0] not in sent_ids:
+                R.mon["later_request_did_not_reuse_the_refused_id"] += 1
+            elif kind2 != "ok" or norm(op, val2) != expect:
+                R.violation(case, "a later request with id %d (the id a refused response carried earlier) returned %r; the agent answered %r" % (mism[0], str(norm(op, val2) if kind2 == "ok" else val2)[:160], str(expect)[:160]), None)
+                return
+            else:
+                R.mon["later_request_with_the_refused_id_got_its_own_answer"] += 1
     elif fault == "disco":
         if delta != 0 and not isinstance(val, InvalidResponseId):
             R.violation(case, "discovery reply with message id off by %d: expected InvalidResponseId, got %r" % (delta, val), None)
@@ -356,6 +388,11 @@ def run(R):
             for fault, delta in (("community", 1), ("community", -1), ("version", 1), ("version", -1), ("rid", 1), ("rid", ("abs", 0))):
                 for k in (1, 2):
                     run_case(R, "v1", op, fault, k, delta, 12345, True, 2)
+        # a refused response's id comes up again as the id of a later request
+        for level in ("v1", "v2c", "v3-noauth", "v3-md5", "v3-sha1-priv"):
+            for op in ("get", "multiget", "getnext"):
+                for delta in (1, 5, 3600, -2):
+                    run_case(R, level, op, "rid", 0, delta, None, True, None)
         # a failed first discovery (refused message id, lost reply), then the same client again
         for level in rig.V3_LEVELS:
             for op in ("get", "set", "walk", "bulkget"):
